@@ -26,6 +26,7 @@ pub struct World {
     pub devices: Vec<Arc<Mutex<LocalAccount>>>,
     pub bridges: Vec<Bridge>,
     pub trace: Arc<std::sync::Mutex<Vec<String>>>,
+    pub wire: Arc<std::sync::Mutex<Vec<Vec<u8>>>>,
     pub backend: String,
 }
 
@@ -133,7 +134,7 @@ impl World {
         let server = Arc::new(RwLock::new(None));
         let trace = Arc::new(std::sync::Mutex::new(vec![]));
         let mut w = World {
-            tmp, account_id, password, server, server_target, devices: vec![], bridges: vec![], trace,
+            tmp, account_id, password, server, server_target, devices: vec![], bridges: vec![], trace, wire: Arc::new(std::sync::Mutex::new(vec![])),
             backend: backend.to_string(),
         };
         w.add_device(acct0);
@@ -173,6 +174,7 @@ impl World {
             account_id: self.account_id,
             gate: Gate { tx: None },
             trace: self.trace.clone(),
+            wire: Some(self.wire.clone()),
         };
         self.bridges.push(Bridge { account_id: self.account_id, account: account.clone(), client, queue });
         self.devices.push(account);
